@@ -26,6 +26,8 @@ type OracleC11 struct {
 	kind    string
 	sender  int
 	redeliv bool
+	orgSeen []seenEnt
+	orgBI   uint32
 }
 
 var probeMask = fpMask{LastSeen: false, Cache: true, Timer: true, Timing: true}
@@ -37,7 +39,51 @@ func NewOracleC11(s *Sim) *OracleC11 {
 }
 func (o *OracleC11) Name() string { return "C11" }
 
+func (o *OracleC11) BeforeCall(n *Node, st *Step) {
+	o.orgSeen = nil
+	if st.Op == OpReceive && n.d != nil && !st.Probe && n.judged() {
+		o.orgSeen = snapSeen(n)
+		o.orgBI = n.d.BlockIndex
+	}
+}
+
+type seenEnt struct {
+	ok bool
+	h  uint32
+	v  byte
+}
+
+func snapSeen(n *Node) []seenEnt {
+	l := make([]seenEnt, len(n.d.LastSeenMessage))
+	for i, x := range n.d.LastSeenMessage {
+		if x != nil {
+			l[i] = seenEnt{true, x.Height, x.View}
+		}
+	}
+	return l
+}
+
+// rewound: noting that a sender is alive never moves its last-seen entry backwards.
+func rewound(pre, post []seenEnt, own int) (int, bool) {
+	for i := range pre {
+		if i >= len(post) || !pre[i].ok || i == own { // the own entry is rewritten by every (re)initialisation
+
+			continue
+		}
+		if !post[i].ok || post[i].h < pre[i].h || (post[i].h == pre[i].h && post[i].v < pre[i].v) {
+			return i, true
+		}
+	}
+	return 0, false
+}
+
 func (o *OracleC11) AfterCall(n *Node, st *Step) {
+	if o.orgSeen != nil && n.d != nil && st.Panic == nil && n.d.BlockIndex == o.orgBI {
+		if i, bad := rewound(o.orgSeen, snapSeen(n), n.d.MyIndex); bad {
+			o.s.Violate("C11", "last_seen_moved_backwards", fmt.Sprintf("%s at height %d view %d: %s moved the last-seen entry of validator %d backwards (%v -> %v)", n, n.d.BlockIndex, n.d.ViewNumber, st.describe(), i, o.orgSeen[i], snapSeen(n)[i]), n.id)
+			return
+		}
+	}
 	if st.Panic != nil {
 		what := "organic"
 		if st.Probe {
@@ -215,6 +261,7 @@ func (o *OracleC11) maybeProbe() {
 	o.kind, o.redeliv = kind, redeliver
 	pre := n.fingerprint(probeMask)
 	preSeen := seenList(n)
+	preEnt := snapSeen(n)
 	st := &Step{Probe: true}
 	sender := -1
 	switch {
@@ -257,6 +304,10 @@ func (o *OracleC11) maybeProbe() {
 	}
 	if post := n.fingerprint(probeMask); post != pre {
 		s.Violate("C11", "inadmissible_input_changed_state", fmt.Sprintf("%s at height %d view %d: probe %s (%s) changed the state:%s", n, h, v, kind, st.describe(), fpDiff(pre, post)), n.id)
+		return
+	}
+	if i, bad := rewound(preEnt, snapSeen(n), n.d.MyIndex); bad {
+		s.Violate("C11", "last_seen_moved_backwards", fmt.Sprintf("%s at height %d view %d: probe %s (%s) moved the last-seen entry of validator %d backwards (%v -> %v)", n, h, v, kind, st.describe(), i, preEnt[i], snapSeen(n)[i]), n.id)
 		return
 	}
 	postSeen := seenList(n)
